@@ -4,7 +4,7 @@
 # patch applies, crate builds, the 167+9 existing tests pass, demo fails with the patch and passes without.
 # Confirmed ones are stored as /verif/seeded/<id>-<i>/.
 set -u
-WT=$1; PID=$2
+WT=$1; PID=$2; OFF=${3:-0}
 V=/tmp/wt/verify-$PID
 git -C /repo worktree add -q --detach $V HEAD || exit 2
 mkdir -p $V/tests
@@ -23,9 +23,9 @@ for d in $WT/mutant_*.diff; do
   rm tests/demo_$i.rs
   echo "$PID-$i: clean_demo=[$clean_demo] suite=[$suite] mutant_demo=[$mut_demo]"
   if echo "$clean_demo" | grep -q "ok\." && echo "$suite" | grep -q "167 passed; 0 failed" && echo "$suite" | grep -q "9 passed; 0 failed" && ! echo "$suite" | grep -q "error" && echo "$mut_demo" | grep -q "FAILED"; then
-    out=/verif/seeded/$PID-$i; mkdir -p $out
+    out=/verif/seeded/$PID-$((i+OFF)); mkdir -p $out
     cp $d $out/patch.diff; cp $demo $out/demo.rs
-    echo "$PID-$i: CONFIRMED"
+    echo "$PID-$((i+OFF)): CONFIRMED"
   else
     echo "$PID-$i: NOT CONFIRMED"
   fi
